@@ -594,10 +594,14 @@ def job_faults(args):
             if rng.random() < 0.5 and not info.get("whole_file") and not info["cls"].startswith("duplicate_"):
                 # definitions in another order (callers before / after their callees, structs after their users)
                 mp_ = vgen.permute_definitions(mp_, rng)
-            if rng.random() < 0.2 and not info.get("whole_file") and not info["cls"].startswith("duplicate_"):
+            tgt = info.get("target") or []
+            directed_tail = info["cls"] == "unknown_type_in_task_in" and len(tgt) >= 2 and tgt[0] == "tasks"
+            if (directed_tail or rng.random() < 0.2) and not info.get("whole_file") and not info["cls"].startswith("duplicate_"):
                 # a struct BEHIND all tasks whose attributes are named like the parameters and variables of the tasks
                 # (names are per definition: a message about a task's parameter must not be located in that struct)
                 names = []
+                if directed_tail and tgt[1] < len(mp_["tasks"]):
+                    names = [x_ for x_, _ty in mp_["tasks"][tgt[1]].get("ins", [])]
                 for t_ in mp_["tasks"]:
                     for x_, _ty in t_.get("ins", []):
                         if x_ not in names:
@@ -612,7 +616,14 @@ def job_faults(args):
                         mp_.pop("order", None)
                         mp_["order"] = vgen.default_order(mp_)
                     mp_["structs"].append({"name": "TailNames", "attrs": [[x_, "number"] for x_ in names[:8]]})
-                    mp_["order"] = list(mp_["order"]) + [["struct", len(mp_["structs"]) - 1]]
+                    entry = ["struct", len(mp_["structs"]) - 1]
+                    order_ = [list(x) for x in mp_["order"]]
+                    if directed_tail and ["task", tgt[1]] in order_ and rng.random() < 0.8:
+                        # directly behind the task the fault is in
+                        order_.insert(order_.index(["task", tgt[1]]) + 1, entry)
+                    else:
+                        order_.append(entry)
+                    mp_["order"] = order_
             text = vgen.print_program(mp_, lay)
             text = with_leading_lines(rng, mp_, text)
             target = vgen.resolve_target(mp_, info)
@@ -1145,6 +1156,9 @@ def job_deep_expression(args):
         rec = {"seed": seed, "n": n, "kind": kind, "text": text, "accepted": False, "problem": None}
         buf = _io.StringIO()
         stage = "construction"
+        import sys as _sys
+        old_limit = _sys.getrecursionlimit()
+        _sys.setrecursionlimit(1000)   # the interpreter's default: what an application runs with (the workers use more)
         try:
             with _cl.redirect_stdout(buf):
                 s = Scheduler(text, generate_test_ids=True, draw_petri_net=False)
@@ -1164,6 +1178,8 @@ def job_deep_expression(args):
             rec["problem"] = "a guard in %d pairs of parentheses (%s) is accepted but %s raises RecursionError" % (n, kind, stage)
         except Exception as ex:  # noqa: BLE001
             rec["problem"] = "a guard in %d pairs of parentheses (%s): %s raises %s" % (n, kind, stage, type(ex).__name__)
+        finally:
+            _sys.setrecursionlimit(old_limit)
         return rec
     except CaseTimeout:
         return {"seed": seed, "timeout": True}
